@@ -166,6 +166,40 @@ def argmin_rule(f):
     return res
 
 
+def _d0(ck, facts):
+    """the statement itself on small circuits: translate, simplify with each strategy, extract with each extractor mode, compare the unitaries"""
+    from .. import zxsem, minirust
+    ck.decided('D0 (evaluation, small scope) for unitary circuits of one to three gates on two and three wires (Clifford+T, rational phases, CCZ / Toffoli, SWAP, parity-phase, XCX): Circuit::to_graph, then flow_simp / clifford_simp / full_simp, '
+               'then Extractor::extract in the modes gflow (single solution set), gflow with simple Gauss, up to permutation, and the Gauss-free flow extractor after flow_simp — all interpreted from their HIR on both back ends, with '
+               'bitgauss::BitMatrix replaced by a port of its gauss_helper that calls the interpreted RowOps impl back: extraction succeeds, the circuit is on the same qubits, uses only H / ZPhase / CZ / CNOT / SWAP, and implements '
+               'the same unitary up to a non-zero scalar (up to permutation: after some permutation of its input qubits); exact arithmetic in Q(e^{i pi/4}) against the reference gate semantics of refs/gates.py')
+    plan = [('vec_graph::Graph', 1), ('hash_graph::Graph', 9)] if ck.tier == 'thorough' else [('vec_graph::Graph', 29), ('hash_graph::Graph', 211)]
+    try:
+        tot, bad, declined = zxsem.run_extractions(facts, plan, procs=16 if ck.tier == 'thorough' else 8)
+    except (minirust.NoEval, minirust.Proceed) as ex:
+        ck.ob3('E3-extract', 'evaluation', None, ck.site(EX + 'extract'), 'the evaluator declined (%s: %s)' % (type(ex).__name__, ex))
+        return
+    by = {}
+    for ty, combo, circ, _a, what in bad:
+        by.setdefault(combo, []).append((ty, circ, what))
+    combos = ['%s + %s' % (st.rsplit('::', 1)[-1], xt) for st in zxsem.STRATEGIES for xt in zxsem.EXTRACTORS if not (xt == 'flow' and st != 'simplify::flow_simp')]
+    for combo in combos:
+        fs = by.get(combo, [])
+        for clause, pred in (('succeeds', lambda w: w.startswith('extraction fails')), ('no-panic', lambda w: w.startswith('panics')),
+                             ('same-unitary-in-the-target-gate-set', lambda w: not w.startswith(('panics', 'extraction fails')))):
+            hit = [f for f in fs if pred(f[2])]
+            if hit:
+                ty, circ, what = hit[0]
+                ck.ob('E3-extract', '%s/%s' % (combo, clause), False, ck.site(EX + 'extract'), 'for the circuit on %s (%s): %s [%d such cases in this run]' % (circ, ty.split('::')[0], what[:600], len(hit)))
+            else:
+                ck.ob('E3-extract', '%s/%s' % (combo, clause), True, ck.site(EX + 'extract'), '', sample={'strategy + extractor': combo, 'circuits': tot['circuits']} if clause.startswith('same') else None)
+    ck.floor('E3-extract', tot['cases'], 6000 if ck.tier == 'thorough' else 200)
+    if tot['declined'] * 20 > max(1, tot['cases']):
+        k0 = sorted(declined)[0]
+        ck.ob3('E3-extract', 'declined', None, ck.site(EX + 'extract'), 'the evaluator declined %d cases, e.g. %s on %s' % (tot['declined'], k0, declined[k0]))
+    ck.note('E3-extract: %d circuits, %d (strategy, extractor) cases decided, %d declined; hash sets are iterated in sorted order (the statement holds for every order)' % (tot['circuits'], tot['cases'], tot['declined']))
+
+
 def _run_own(ck):
     facts = ck.facts
     ck.decided('D1 gate set: every gate constructed in code reachable from Extractor::extract (including the RowOps-for-Circuit callbacks) has a constant kind in {H, ZPhase, CZ, CNOT, SWAP} — this clause of the statement is decided completely',
@@ -173,7 +207,8 @@ def _run_own(ck):
                'D3 extraction applies only checked rules and propagates every ExtractError',
                'D4 CLI wiring: the printed QASM is to_qasm() of the circuit extracted from the simplified graph of the parsed file',
                'D5 configuration table: flow/gflow/gflow_simple_gauss/up_to_perm select what they say; perm_to_cnots runs exactly when not up to permutation; method flags select the simplifier of their name')
-    ck.not_decided('that extraction succeeds', 'that the extracted circuit is equivalent (gflow of run-time graphs, bitgauss convention for add_row)', '.expect in the CLI')
+    ck.not_decided('success and equivalence of extraction beyond the evaluated small scope (gflow of run-time graphs)', 'the real iteration order of FxHashSet', '.expect in the CLI')
+    _d0(ck, facts)
     # ---- D1
     roots = [k for k in facts['fns'] if k.startswith(EX)] + [k for k in facts['fns'] if k.startswith('<circuit::Circuit as bitgauss::RowOps>')]
     ck.fn(EX + 'extract')
